@@ -1441,7 +1441,8 @@ pub async fn run_round(
                 // write stall window
                 if let Some((at, k, release)) = tm.wstall {
                     if !stall_on && now_s >= at && now_s < release {
-                        end.plan_writes(vec![crate::mock::WriteOutcome::Accept(k), crate::mock::WriteOutcome::Pending]);
+                        // k = 0: the transport takes not a single byte of the next packet
+                        end.plan_writes(if k == 0 { vec![crate::mock::WriteOutcome::Pending] } else { vec![crate::mock::WriteOutcome::Accept(k), crate::mock::WriteOutcome::Pending] });
                         stall_on = true;
                     }
                     if stall_on && now_s >= release {
@@ -1605,6 +1606,10 @@ pub fn run_behaviour(idx: usize, b: &Value, seed: u64, var: u64) -> Value {
         3 => conc.other.id = Uuid::nil(),
         4 => conc.other.name = String::new(),
         _ => {}
+    }
+    // the server address of the Handshake may be given with a fixed length (sweeps over the frame length prefix)
+    if let Some(n) = b["hostLen"].as_u64() {
+        conc.hs_host = "play.example.org.".chars().cycle().take(n as usize).collect();
     }
     // the authenticated profile may carry no properties at all (an account without a skin)
     if (var / 5) % 4 == 3 {
